@@ -24,12 +24,13 @@ def tok(it, a): return it.mkv(AI, 'Token', contract_addr=Str(a))
 def nasset(it, d, amt): return it.mk(PN + 'asset::Asset', info=nat(it, d), amount=U128(amt))
 
 
-def setup_coll(it, active=None, rate=None, dao=DAO, distr=DISTR_ASSET):
+def setup_coll(it, active=None, rate=None, dao=DAO, distr=DISTR_ASSET, fresh=False):
     c = it.ctx; w = it.world; w.contract = COLL
     act = active if active is not None else c.symbool('take_rate_active')
     r = rate if rate is not None else c.sym('take_rate', 128)
-    w.item('config', it.mk(FC + 'Config', owner=ADDR('owner'), pool_router=ADDR(ROUTER), fee_distributor=ADDR(DIST), pool_factory=ADDR(PFACT),
-                           vault_factory=ADDR(VFACT), take_rate=DEC(r), take_rate_dao_address=ADDR(dao), is_take_rate_active=act))
+    b = (lambda x: '') if fresh else (lambda x: x)          # fresh: the blank addresses instantiate leaves behind
+    w.item('config', it.mk(FC + 'Config', owner=ADDR('owner'), pool_router=ADDR(b(ROUTER)), fee_distributor=ADDR(b(DIST)), pool_factory=ADDR(b(PFACT)),
+                           vault_factory=ADDR(b(VFACT)), take_rate=DEC(r), take_rate_dao_address=ADDR(b(dao)), is_take_rate_active=act))
     c.assume(r < E18)
     dcfg = it.mk(FD + 'Config', owner=ADDR('owner'), bonding_contract_addr=ADDR('whale_lair_contract'), fee_collector_addr=ADDR(COLL), grace_period=U64(21),
                  epoch_config=it.mk(EM + 'EpochConfig', duration=U64(86400 * 10**9), genesis_epoch=U64(10**18)),
@@ -114,13 +115,17 @@ def collect(ck, prog):
 
 def aggregate(ck, prog):
     """one native and one cw20 non-distribution asset (plus the distribution asset itself) from a pool factory with two pairs."""
-    for route_ok in (True, False):
-        for sim_ok in ((True, False) if route_ok else (True,)):
-            def body(it, route_ok=route_ok, sim_ok=sim_ok):
+    for route_ok, sim_ok, source in ((True, True, 'Pool'), (True, False, 'Pool'), (False, True, 'Pool'), (True, True, 'Vault'), (False, True, 'Vault')):
+        if True:
+            def body(it, route_ok=route_ok, sim_ok=sim_ok, source=source):
                 c = it.ctx; setup_coll(it)
                 w = it.world
-                pairs = [('pair_0', nat(it, DISTR_ASSET), nat(it, 'uatom')), ('pair_1', tok(it, 'token_x'), nat(it, DISTR_ASSET))]
-                w.smart_table.append((PFACT, pq(it), pairs_resp(it, pairs)))
+                if source == 'Pool':
+                    pairs = [('pair_0', nat(it, DISTR_ASSET), nat(it, 'uatom')), ('pair_1', tok(it, 'token_x'), nat(it, DISTR_ASSET))]
+                    w.smart_table.append((PFACT, pq(it), pairs_resp(it, pairs)))
+                else:
+                    # a vault factory that lists a vault of the distribution asset itself, next to a native and a cw20 vault
+                    w.smart_table.append((VFACT, vq(it), vaults_resp(it, [('vault_0', nat(it, 'uatom')), ('vault_1', nat(it, DISTR_ASSET)), ('vault_2', tok(it, 'token_x'))])))
                 bn, bc, bd = c.sym('bal_uatom', 128), c.sym('bal_token_x', 128), c.sym('bal_distr', 128)
                 w.cw20_info['token_x'] = dict(total_supply=c.sym('token_x_supply', 128), decimals=6)
                 w.bank.append((Str(COLL), Str('uatom'), bn)); w.bank.append((Str(COLL), Str(DISTR_ASSET), bd)); w.cw20.append((Str('token_x'), Str(COLL), bc))
@@ -130,12 +135,19 @@ def aggregate(ck, prog):
                     w.smart_table.append((ROUTER, it.mkv(RQ, 'SwapRoute', offer_asset_info=a, ask_asset_info=nat(it, DISTR_ASSET)), op(a) if route_ok else Opaque('query_error')))
                     w.smart_table.append((ROUTER, it.mkv(RQ, 'SimulateSwapOperations', offer_amount=U128(bal), operations=op(a)),
                                           it.mk(PN + 'router::SimulateSwapOperationsResponse', amount=U128(c.sym('sim_out', 128))) if sim_ok else Opaque('query_error')))
+                # the router is not trusted to refuse a round trip: it also answers for the key (distribution asset -> distribution asset)
+                loop = VecV([it.mkv(PN + 'router::SwapOperation', 'TerraSwap', offer_asset_info=nat(it, DISTR_ASSET), ask_asset_info=nat(it, 'uatom')),
+                             it.mkv(PN + 'router::SwapOperation', 'TerraSwap', offer_asset_info=nat(it, 'uatom'), ask_asset_info=nat(it, DISTR_ASSET))])
+                w.smart_table.append((ROUTER, it.mkv(RQ, 'SwapRoute', offer_asset_info=nat(it, DISTR_ASSET), ask_asset_info=nat(it, DISTR_ASSET)), loop))
+                w.smart_table.append((ROUTER, it.mkv(RQ, 'SimulateSwapOperations', offer_amount=U128(bd), operations=loop),
+                                      it.mk(PN + 'router::SimulateSwapOperationsResponse', amount=U128(c.sym('sim_loop', 128)))))
                 it.extra = dict(bn=bn, bc=bc)
-                return enter(it, 'fee_collector', 'execute', mk_env(it, 10**18), mk_info(COLL, []), it.mkv(CX, 'AggregateFees', aggregate_fees_for=ffor(it, PFACT, 'Pool')))
-            tag = 'aggregate.route_%s.sim_%s' % (route_ok, sim_ok)
+                return enter(it, 'fee_collector', 'execute', mk_env(it, 10**18), mk_info(COLL, []),
+                             it.mkv(CX, 'AggregateFees', aggregate_fees_for=ffor(it, PFACT if source == 'Pool' else VFACT, source)))
+            tag = 'aggregate.route_%s.sim_%s' % (route_ok, sim_ok) + ('' if source == 'Pool' else '.vaults')
             n = 0
             for p in ck.explore(prog, body, tag):
-                ck.sample(dict(entry='fee_collector.execute(aggregate_fees)', route=route_ok, simulation=sim_ok, outcome=p.short()))
+                ck.sample(dict(entry='fee_collector.execute(aggregate_fees)', source=source, route=route_ok, simulation=sim_ok, outcome=p.short()))
                 if not p.ok: continue
                 n += 1
                 bn, bc = p.extra['bn'], p.extra['bc']
